@@ -20,12 +20,11 @@ One contract theorem for all modelled propagator kinds: `PK.contract_all`.
 propagator treats as booleans; the contract holds on stores where those have domains ⊆ {0,1}.
 
 Kinds added later (mul, div, modulo, allEqual, between, count, cardinality, element, table,
-if-then-else, allDiff): `PK.WFs` is the *static* well-formedness of every kind, `PK.StoreOk` the additional
-*store* precondition of `modulo` (non-negative dividend, positive divisor;
-`div` needs none since the repair `fix: Div/Modulo fail when the divisor is fixed to zero`); `PK.contract_inv` is the general contract theorem under a
-store invariant implying both, `StoreInv`/`closed_storeInv`/`allContract_inv` package it for the
-engine theorems.  `PK.WFk`/`PK.contract_all` keep their signature: for `modulo` `WFk` asks the
-store precondition for *every* store (i.e. constant operands).
+if-then-else, allDiff): no kind needs a store precondition any more (the last one, `modulo`'s
+"non-negative dividend, positive divisor", went with the unconditional proof of `sound_modulo`).
+`PK.WFs` (= `PK.WFk`, kept under both names) is the static well-formedness, `PK.contract_inv` /
+`PK.contract_all` the contract theorem, `StoreInv`/`closed_storeInv`/`allContract_inv` package the
+store invariant (non-empty domains, boolean variables boolean) for the engine theorems.
 -/
 namespace Selen
 
@@ -62,11 +61,6 @@ def PK.WFs : PK → Prop
   | .table xs ts => ∀ t ∈ ts, t.length = xs.length
   | _ => True
 
-/-- store precondition of a kind (beyond boolean domains) -/
-def PK.StoreOk : PK → Store → Prop
-  | .modulo x y _ => KModulo.ModOk x y
-  | _ => fun _ => True
-
 def PK.WFk : PK → Prop
   | .leq x y => x.WF ∧ y.WF
   | .eq x y => x.WF ∧ y.WF
@@ -82,23 +76,17 @@ def PK.WFk : PK → Prop
   | .abs x _ => x.WF
   | .mul x y _ => x.WF ∧ y.WF
   | .div x y _ => x.WF ∧ y.WF
-  | .modulo x y _ => (x.WF ∧ y.WF) ∧ ∀ st, KModulo.ModOk x y st
+  | .modulo x y _ => x.WF ∧ y.WF
   | .allEqual _ => True
   | .count _ t _ => t.WF
   | .table xs ts => ∀ t ∈ ts, t.length = xs.length
   | _ => True
 
-theorem KModulo.modOk_nonzero {x y : IView} {st : Store} (h : KModulo.ModOk x y st) :
-    PK.rangeHasZero (y.minRaw st) (y.maxRaw st) = false := by
-  have := h.2
-  simp only [PK.rangeHasZero, Bool.and_eq_false_iff, decide_eq_false_iff_not]
-  omega
-
 theorem PK.wfs_of_wfk (k : PK) (h : k.WFk) : k.WFs := by
-  cases k <;> first | exact h | exact h.1
+  cases k <;> exact h
 
-theorem PK.storeOk_of_wfk (k : PK) (h : k.WFk) (st : Store) : k.StoreOk st := by
-  cases k <;> first | exact h.2 st | trivial
+theorem PK.wfk_of_wfs (k : PK) (h : k.WFs) : k.WFk := by
+  cases k <;> exact h
 
 /-- the listed variables have domains ⊆ {0,1} -/
 def BoolStore (bs : List Nat) (st : Store) : Prop := ∀ b ∈ bs, ∀ w ∈ st b, w = 0 ∨ w = 1
@@ -111,9 +99,9 @@ theorem boolStore_dmax {bs : List Nat} {st : Store} (h : BoolStore bs st) {b : N
   rcases h b hb _ (Dom.dmax_mem _ hne) with e | e <;> omega
 
 /-- **the contract of every modelled kind**, relative to a store invariant `P` that makes the
-boolean variables boolean and implies the kind's store precondition -/
+boolean variables boolean -/
 theorem PK.contract_inv (k : PK) (hwf : k.WFs) (P : Store → Prop)
-    (hP : ∀ st, P st → BoolStore k.boolVars st) (hS : ∀ st, P st → k.StoreOk st) : PKContract k P := by
+    (hP : ∀ st, P st → BoolStore k.boolVars st) : PKContract k P := by
   cases k with
   | leq x y => exact pkContract_of_contract' P (PK.contract_leq x y hwf.1 hwf.2)
   | eq x y => exact pkContract_of_contract' P (PK.contract_eq x y hwf.1 hwf.2)
@@ -180,12 +168,7 @@ theorem PK.contract_inv (k : PK) (hwf : k.WFs) (P : Store → Prop)
   | mul x y s =>
     exact pkContract_of_contract' P (KMulDiv.PK.contract_mul x y s hwf.1 hwf.2)
   | div x y s => exact pkContract_of_contract' P (KMulDiv.PK.contract_div x y s hwf.1 hwf.2)
-  | modulo x y s =>
-    exact ⟨fun c a hp hm hs => KModulo.PK.sound_modulo x y s hwf.1 hwf.2 c a (hS _ hp) hm hs,
-           KModulo.PK.contracting_modulo x y s,
-           fun c c' a hp hf hm e => KModulo.PK.checking_modulo x y s hwf.1 hwf.2 c c' a
-              (KModulo.modOk_nonzero (hS _ hp)) hf hm e,
-           KModulo.PK.resp_modulo x y s⟩
+  | modulo x y s => exact pkContract_of_contract' P (KModulo.PK.contract_modulo x y s hwf.1 hwf.2)
   | allEqual xs => exact pkContract_of_contract' P (KSimple.PK.contract_allEqual xs)
   | between l m u => exact pkContract_of_contract' P (KSimple.PK.contract_between l m u)
   | count xs t c => exact pkContract_of_contract' P (KCountCard.PK.contract_count xs t c hwf)
@@ -198,27 +181,20 @@ theorem PK.contract_inv (k : PK) (hwf : k.WFs) (P : Store → Prop)
 
 theorem PK.contract_all (k : PK) (hwf : k.WFk) (P : Store → Prop)
     (hP : ∀ st, P st → BoolStore k.boolVars st) : PKContract k P :=
-  PK.contract_inv k (PK.wfs_of_wfk k hwf) P hP (fun st _ => PK.storeOk_of_wfk k hwf st)
+  PK.contract_inv k (PK.wfs_of_wfk k hwf) P hP
 
 /-! ### a store invariant for whole models (usable as `P` in the engine theorems) -/
 
-/-- non-empty domains, boolean variables boolean, every propagator's store precondition -/
+/-- non-empty domains, boolean variables boolean -/
 def StoreInv (ps : List PK) (st : Store) : Prop :=
-  NonEmpty st ∧ BoolStore (ps.flatMap PK.boolVars) st ∧ ∀ k ∈ ps, k.StoreOk st
+  NonEmpty st ∧ BoolStore (ps.flatMap PK.boolVars) st
 
-theorem PK.storeOk_good (k : PK) (hwf : k.WFs) {T : List Nat} {c c' : Ctx} (g : Good T c c')
-    (hne : NonEmpty c.st) (h : k.StoreOk c.st) : k.StoreOk c'.st := by
-  cases k with
-  | modulo x y s => exact KModulo.PK.modOk_good x y hwf.1 hwf.2 g hne h
-  | _ => trivial
-
-theorem closed_storeInv (ps : List PK) (hwf : ∀ k ∈ ps, k.WFs) : Closed (StoreInv ps) :=
-  ⟨fun _ _ _ h g => ⟨g.ne h.1, (closed_boolStore _).step _ _ _ h.2.1 g,
-    fun k hk => PK.storeOk_good k (hwf k hk) g h.1 (h.2.2 k hk)⟩⟩
+theorem closed_storeInv (ps : List PK) : Closed (StoreInv ps) :=
+  ⟨fun _ _ _ h g => ⟨g.ne h.1, (closed_boolStore _).step _ _ _ h.2 g⟩⟩
 
 theorem allContract_inv (ps : List PK) (hwf : ∀ k ∈ ps, k.WFs) : AllContract ps (StoreInv ps) :=
   fun k hk => PK.contract_inv k (hwf k hk) _
-    (fun _ h b hb => h.2.1 b (List.mem_flatMap.2 ⟨k, hk, hb⟩)) (fun _ h => h.2.2 k hk)
+    (fun _ h b hb => h.2 b (List.mem_flatMap.2 ⟨k, hk, hb⟩))
 
 /-- **C05 at the engine level for all modelled kinds**: propagation to fixpoint of statically
 well-formed propagators, from a store satisfying `StoreInv`, never fails while a solution exists,
@@ -230,15 +206,15 @@ theorem propagate_sound_inv (ps : List PK) (hwf : ∀ k ∈ ps, k.WFs) (pol : Po
     | .fail => False
     | .fuel => True
     | .ok st' => Mem st' a ∧ StoreInv ps st' :=
-  propagate_sound ps pol _ (closed_storeInv ps hwf) (allContract_inv ps hwf) a ha fuel q st hst hm
+  propagate_sound ps pol _ (closed_storeInv ps) (allContract_inv ps hwf) a ha fuel q st hst hm
 
-/-- the hypotheses are satisfiable for a model with `div` and `modulo` over variables:
-`x / y = s ∧ x % y = s` with `x ∈ {4,6}`, `y ∈ {2,3}`, `s ∈ {0,2,3}` -/
+/-- the hypotheses are satisfiable for a model with `div` and `modulo` over variables of both
+signs: `x / y = s ∧ x % y = s` with `x ∈ {-6,4,6}`, `y ∈ {-2,3}`, `s ∈ {-3,0,2}` -/
 example :
     let ps : List PK := [.div (.var 0) (.var 1) 2, .modulo (.var 0) (.var 1) 2]
-    let st : Store := fun i => [[4, 6], [2, 3], [0, 2, 3]].getD i [1]
+    let st : Store := fun i => [[-6, 4, 6], [-2, 3], [-3, 0, 2]].getD i [1]
     (∀ k ∈ ps, k.WFs) ∧ StoreInv ps st := by
-  refine ⟨?_, ?_, ?_, ?_⟩
+  refine ⟨?_, ?_, ?_⟩
   · intro k hk
     simp only [List.mem_cons, List.not_mem_nil, or_false] at hk
     rcases hk with rfl | rfl <;> simp [PK.WFs, IView.WF]
@@ -249,10 +225,5 @@ example :
     | 2 => simp
     | _ + 3 => simp
   · intro b hb; simp [PK.boolVars] at hb
-  · intro k hk
-    simp only [List.mem_cons, List.not_mem_nil, or_false] at hk
-    rcases hk with rfl | rfl
-    · trivial
-    · show KModulo.ModOk _ _ _; unfold KModulo.ModOk; decide
 
 end Selen
